@@ -2078,9 +2078,14 @@ package ion
 //@ modifies nothing
 //@ ensures[C07,C15] err != nil
 
+// A fraction of up to nine digits is parsed as written (its digit count is part of the
+// value); only a fraction of nine or more digits goes through rounding to nanoseconds, which
+// renders nine digits (C01, C15).
 //@ func ParseTimestamp
 //@ split returns
 //@ invariant loop0 [idx int] 20 <= idx && idx <= len(dateStr)
+//@ atcall[C01,C15] NewTimestampFromStr#2 [idx int] 21 <= idx && idx-20 <= 9
+//@ atcall[C01,C15] roundFractionalSeconds [idx int] idx-20 >= 9
 //@ modifies nothing
 //@ ensures[C07,C15] len(dateStr) < 5 ==> err != nil
 //@ safe[C06,C15]
